@@ -69,8 +69,14 @@ structure ChildCerts where
   suspended : AMap KeyId ChildCert := []
 deriving DecidableEq, Repr
 
-/-- `add_issued_certificate` (child.rs:200-203): `issued.insert` only. -/
+/-- `add_issued_certificate` (child.rs:200-204, after fix bb96d233): a `suspended` entry of the
+same key is removed, then `issued.insert`. -/
 def ChildCerts.addIssued (cs : ChildCerts) (p : KeyId × ChildCert) : ChildCerts :=
+  { issued := set cs.issued p.1 p.2, suspended := del cs.suspended p.1 }
+
+/-- `add_issued_certificate` of the pinned tree (before bb96d233): `issued.insert` only – the
+counter-model of F-C02-1. -/
+def ChildCerts.pinnedAddIssued (cs : ChildCerts) (p : KeyId × ChildCert) : ChildCerts :=
   { cs with issued := set cs.issued p.1 p.2 }
 
 /-- `unsuspend_certificate` (child.rs:206-210) -/
@@ -89,6 +95,14 @@ def ChildCerts.removeRevoked (cs : ChildCerts) (k : KeyId) : ChildCerts :=
 (certauth.rs:401-438): issued, unsuspended, removed, suspended – in that order. -/
 def ChildCerts.applyUpd (cs : ChildCerts) (u : CertUpd) : ChildCerts :=
   let cs := u.issued.foldl ChildCerts.addIssued cs
+  let cs := u.unsuspended.foldl ChildCerts.unsuspend cs
+  let cs := u.removed.foldl ChildCerts.removeRevoked cs
+  u.suspended.foldl ChildCerts.suspend cs
+
+/-- `ChildCertificates` update of the pinned tree (before bb96d233): as `applyUpd`, with the
+pinned `add_issued_certificate`. -/
+def ChildCerts.pinnedApplyUpd (cs : ChildCerts) (u : CertUpd) : ChildCerts :=
+  let cs := u.issued.foldl ChildCerts.pinnedAddIssued cs
   let cs := u.unsuspended.foldl ChildCerts.unsuspend cs
   let cs := u.removed.foldl ChildCerts.removeRevoked cs
   u.suspended.foldl ChildCerts.suspend cs
@@ -151,9 +165,12 @@ def ChildCerts.activateKey (cs : ChildCerts) (signing : Cert) (na : Int) : Excep
 
 private def cc12 : ChildCert := { res := [1, 2], na := 5 }
 
-/-- suspend → unsuspend (re-issue through `add_issued_certificate`) leaves the key in both maps. -/
+/-- suspend → unsuspend (re-issue through `add_issued_certificate`) leaves the key in `issued`
+only; on the pinned tree it stayed in both maps (F-C02-1). -/
 example :
     (((({} : ChildCerts).addIssued (7, cc12)).suspend (7, cc12)).addIssued (7, cc12)) =
+      { issued := [(7, cc12)], suspended := [] } ∧
+    (((({} : ChildCerts).addIssued (7, cc12)).suspend (7, cc12)).pinnedAddIssued (7, cc12)) =
       { issued := [(7, cc12)], suspended := [(7, cc12)] } := by decide
 
 /-- A shrink to `{1}` re-issues, a shrink to `{3}` removes, no change leaves alone. -/
